@@ -4,6 +4,8 @@ package main
 
 import (
 	"go/types"
+
+	iso639_3 "github.com/barbashov/iso639-3"
 	"unicode/utf8"
 
 	"golang.org/x/tools/go/ssa"
@@ -249,6 +251,40 @@ func initEnvStubs() {
 		}
 		return ts.Ite(ts.Ult(n, ts.Const(8, 10)), ts.Add(n, ts.Const(8, '0')), ts.Add(n, ts.Const(8, 'a'-10)))
 	}
+	// the ISO 639 table is data, not code of go-vise: looked up natively
+	reg("github.com/barbashov/iso639-3.FromAnyCode", func(ex *Exec, fn *ssa.Function, args []Value, caller *Frame) Value {
+		code := concArg(ex, args[0], "iso639_3.FromAnyCode (the code must be concrete)")
+		l := iso639_3.FromAnyCode(code)
+		if l == nil {
+			return Ptr{}
+		}
+		lt := ex.P.namedType("github.com/barbashov/iso639-3", "Language")
+		st := ex.zero(lt).(Struct)
+		u := lt.Underlying().(*types.Struct)
+		for i := 0; i < u.NumFields(); i++ {
+			switch u.Field(i).Name() {
+			case "Part3":
+				st[i] = ex.strLit(l.Part3)
+			case "Part2B":
+				st[i] = ex.strLit(l.Part2B)
+			case "Part2T":
+				st[i] = ex.strLit(l.Part2T)
+			case "Part1":
+				st[i] = ex.strLit(l.Part1)
+			case "Scope":
+				st[i] = ex.ts.Const(32, uint64(l.Scope))
+			case "LanguageType":
+				st[i] = ex.ts.Const(32, uint64(l.LanguageType))
+			case "Name":
+				st[i] = ex.strLit(l.Name)
+			case "Comment":
+				st[i] = ex.strLit(l.Comment)
+			}
+		}
+		cell := new(Value)
+		*cell = st
+		return Ptr{P: cell}
+	})
 	reg("encoding/hex.EncodeToString", func(ex *Exec, fn *ssa.Function, args []Value, caller *Frame) Value {
 		sl := args[0].(Slice)
 		if sl.Rope != nil {
